@@ -249,6 +249,17 @@ for _fam in FAMILIES:
             n={"quick": 100 * len(sized(_fam)), "thorough": 1500 * len(sized(_fam))},
         ))
 
+CLAUSES.append(Clause(
+    id="C09.fuzz",
+    kind="fuzz",
+    doc="coverage-guided campaign (atheris/libFuzzer) over all entry points with the same oracle inside the target: octet 0 = entry, octet 1 = flags (CRC re-patch, decoder configuration), rest = buffer; "
+        "even shards start from an empty corpus, odd shards from valid units; reported buckets are re-run through the plain oracle",
+    check=check_accepted, nontrivial=_nt_accepted, classify=lambda c: [c["entry"]], tiers=("thorough",),
+    fuzz={"prop": "C09", "runs": {"thorough": 400000}, "seeded": 3},
+    rule="distinct = distinct fuzzer inputs (64-bit digests) that are non-trivial by the rule of the corresponding @given clause; executions are exact to within 1000 (atheris exits through os._exit)",
+    shards={"quick": 0, "thorough": 16},
+))
+
 PROPERTY = Property(
     id="C09",
     level="exploration",
